@@ -1675,11 +1675,8 @@ class LangServer:
                 self._load_config_file_preproc(config_dict)
 
                 # Debug options
-                debugging: bool = config_dict.get("debug_log", self.debug_log)
-                # If conf option is different than the debug option passed as a
-                # command line argument return True so that debug log is setup
-                if debugging != self.debug_log and not self.debug_log:
-                    self.debug_log = True
+                # As for every other option the value in the file wins
+                self.debug_log = config_dict.get("debug_log", self.debug_log)
 
         except FileNotFoundError:
             self.post_message(f"Configuration file '{self.config}' not found")
